@@ -5,8 +5,8 @@
  * entries, keys <= 2 bytes, separators anywhere in the legal interval, v1 or v2 framing, any compression flag,
  * verify_checksums on/off with possibly damaged blocks).  Iterator states are ARBITRARY states satisfying the
  * representation invariant RI (hence every history of next/seek calls). */
-#include "/repo/mtbl/reader.c"
-#include "/repo/mtbl/iter.c"
+#include "mtbl/reader.c"
+#include "mtbl/iter.c"
 #include "spec/ghost.h"
 void *realloc(void *p, size_t n) { VG_A(0, "no vector growth expected in this capped harness"); __CPROVER_assume(0); return p; }
 
